@@ -21,7 +21,7 @@ TECHNIQUE = "translator tie: class Entry is regenerated into Gallina on every ru
 LEVEL_TEXT = ("Table / TableProxy / EntryProxy (dictionary dimensions) are also translated from the source on every run and proved equal to the table model (C16_gen_table_*, C16_table_*). Reading of the statement made explicit by theorems: a tag is a TRUTHY info (a candidate whose info is falsy is untagged: C16_untagged_candidate/_history); combine pairs retained tags, so under NONE it returns the infinite default (C16_combine_no_tags); a table cell ignores batches made only of infinite candidates. Class Entry itself is translated from the source on every run and proved equal to the model (C16_gen_entry_*). Machine-checked for histories of any length: value = optimum of all candidates; tags under ALL = exactly the tags of optimal candidates (duplicate-free), "
               "under ANY one tag of an optimal candidate iff one is tagged, under NONE none; batching irrelevant; combine = optimum/arg-opt over pairs of retained tags; "
               "a table cell reads as the entry fed the finite-bearing batches addressed to it, default when there are none. "
-              "Model compared with the implementation on every history up to length 3 (quick) / 4 (thorough) over {0,1,2}x{none,a,b}, all batchings, 6 policies, "
+              "Model compared with the implementation on every history up to length 3 (quick) / 5 (thorough: the length the property names) over {0,1,2}x{none,a,b}, all batchings, 6 policies, "
               "standalone and in 1-3 dimensional tables, and on random histories up to length 40 with infinite values.")
 LEVEL_NOTE = ("Trusted: Coq kernel; the hand-written model (correspondence = differential testing). The theorems are about the repaired Entry.update (fix D1); "
               "the pre-fix loop is refuted in C16_stale_tags_refuted. EntryProxy skips batches with only infinite candidates: stated as such (relevant), not hidden.")
@@ -165,7 +165,7 @@ def batches(ctx):
 
     # ---- 1. standalone entries ------------------------------------------------
     cands = [(v, t) for v in (0, 1, 2) for t in (None, "a", "b")]
-    L = 3 if ctx.quick() else 4
+    L = 3 if ctx.quick() else 5   # the quantifier of the property: histories up to length 5 (exhaustive in the thorough tier)
     cases = []
     for n in range(L + 1):
         for h in itertools.product(cands, repeat=n):
